@@ -183,6 +183,73 @@ func (r *Registry) Get(id int) *Conn {
 	return r.conns[id-1]
 }
 
+// GatedResource wraps the cluster's request resource. The pools release it (Decrease) on the stream
+// destroy path after the stream is gone and before they update their idle list; when armed, that
+// goroutine is held right there, so the driver can deliver other events in the window.
+type GatedResource struct {
+	types.Resource
+	mu      sync.Mutex
+	entered chan struct{}
+	release chan struct{}
+}
+
+func (r *GatedResource) Decrease() {
+	r.Resource.Decrease()
+	r.mu.Lock()
+	ent, rel := r.entered, r.release
+	r.entered, r.release = nil, nil
+	r.mu.Unlock()
+	if ent != nil {
+		close(ent)
+		<-rel
+	}
+}
+
+// Arm holds the next Decrease() after it has released the resource.
+func (r *GatedResource) Arm() (entered <-chan struct{}, release chan<- struct{}) {
+	e, l := make(chan struct{}), make(chan struct{})
+	r.mu.Lock()
+	r.entered, r.release = e, l
+	r.mu.Unlock()
+	return e, l
+}
+
+// Disarm removes an unused gate.
+func (r *GatedResource) Disarm() {
+	r.mu.Lock()
+	r.entered, r.release = nil, nil
+	r.mu.Unlock()
+}
+
+type gatedRM struct {
+	types.ResourceManager
+	req *GatedResource
+}
+
+func (m *gatedRM) Requests() types.Resource { return m.req }
+
+type gatedInfo struct {
+	types.ClusterInfo
+	rm *gatedRM
+}
+
+func (i *gatedInfo) ResourceManager() types.ResourceManager { return i.rm }
+
+// GateRequests makes the host hand out a cluster info whose request resource is gated.
+func (h *Host) GateRequests() *GatedResource {
+	ci := h.Host.ClusterInfo()
+	g := &GatedResource{Resource: ci.ResourceManager().Requests()}
+	h.info = &gatedInfo{ClusterInfo: ci, rm: &gatedRM{ResourceManager: ci.ResourceManager(), req: g}}
+	return g
+}
+
+func (h *Host) ClusterInfo() types.ClusterInfo {
+	if h.info != nil {
+		return h.info
+	}
+	return h.Host.ClusterInfo()
+}
+
 // Host wraps the host of a pool: connections are created by the live host, or by a host whose
 // address refuses connections while Down is set.
 type Host struct {
@@ -190,6 +257,7 @@ type Host struct {
 	Dead types.Host
 	Down int32
 	Reg  *Registry
+	info *gatedInfo
 }
 
 func (h *Host) SetDown(d bool) {
